@@ -12,4 +12,6 @@ pub mod expr;
 pub mod instruction;
 pub mod parser;
 pub mod utility;
+#[cfg(avra_rs_verif)]
+pub mod verif_hook;
 pub mod writer;
